@@ -23,7 +23,7 @@ Definition sval_eqb (a b : sval) : bool :=
   | VInt x, VInt y => x =? y
   | VZ x, VZ y => (x =? y)%Z
   | VB x, VB y => x =? y
-  | VQ, VQ => true
+  | VQ, VQ | VPInf, VPInf | VNInf, VNInf | VNaN, VNaN => true
   | _, _ => false
   end.
 Definition extra_eqb (a b : extra) : bool :=
